@@ -14,12 +14,12 @@ import os
 import sys
 
 AVOID = {
-    'C04': "a lambda skipping scope push; omit-tag guard evaluated twice with default; switch/case body ordering; dict item-before-attribute fast path; hoisting literal displays to statics; type prefix on later pipe alternatives; narrowing LookupError to KeyError/IndexError; skipping attribute->item rewrite for call targets; memoising interpolation values by expression text; expression-cache dict rebinding after macros; comprehension loop variables made local including the outermost iterable; pipe splitter taught to skip quoted strings; lookup_attr item fallback wrapped in a broad except; digest() mutating the compiler's class-level set of builtin names in place; a fast path for exists: over a bare identifier; exists: using the pipe's exception tuple; naming cached-guard variables after expression text; a per-(class,name) memo of item-vs-attribute in lookup_attr",
-    'C12': "missing __token reset before in-place macro call; args lost for OSError/MemoryError; column = absolute offset; stale handled-error records; removed token for use-macro expression; expression compilers cached by text; compiler class state shared across concurrent compilations; derived exception class cached per class with __str__ reassigned; tal:repeat not copying sized containers; except-OSError-as clobbering a variable in the formatter; line table built with str.splitlines; an 'already formatted' marker attribute that lands on the original exception through the shared instance dictionary; the formatter caching its text; de-duplicating recorded sites of a nested render per record; filling the offset->(line, column) table with one forward scan; keying cached modules by the file's base name; tokenizer dropping a leading BOM; bounding the list of recorded error sites",
-    'C13': "handler called after the fallback; del __stream not redirected in translation blocks; switch/case cancel ordering; fallback tags with omit-tag expression; except RecursionError: raise; saved lengths on a per-function stack; fallback guarded by truthiness of saved length; shared len(__stream) AST node; fallback start tag with raw ${} attributes; dropping try for bodies without token references; error-variable backup taken inside the handler; try/finally restoration of repeat variables opened before the loop variable is bound; binding error / calling the handler only when the fallback mentions 'error'; reporting to on_error_handler only the first failure of an element per render; taking error's position from the first recorded site without matching the exception; saving the stream length through an alias bound at function entry; dropping the token reset before a filled slot is called; dropping the on-error wrap of fill-slot content",
-    'C14': "re-cook deleting all _render* first; search_path list shared and mutated; unlocked fast path in ModuleLoader._load; RepeatDict mutable default; code generator class state at module level; xmlns declarations written to the process-wide default namespace map; reload decision kept in a local; read() resetting content_type before I/O; mtime recorded after read+compile; frozenset ordering of i18n:attributes; Macros wrappers memoised; cook() memoising the digest it is compiling before the functions are installed; registry key dropping positional arguments; import: resolver reading sys.modules instead of __import__; a per-type cache in lookup_attr; hoisting literal displays into module-level statics; memoising render()'s encoding helpers on the instance; caching the formatted exception class per type",
-    'C15': "rename before close; unset vs empty option sharing a key; single os.write with ignored short count; fixed temp name; unlocked _load fast path; sweeping *.tmp files; temp file on another file system + shutil.move; memoised option digest; line-ending normalisation in the key; digest taken before extra_builtins merged; sys.modules entry before exec_module; byte-code written in place by the loader itself instead of py_compile; a canonical form for functools.partial that sorts positional arguments; truncating the stored module's file name; hashing only the distributions whose modules are imported; hashing the live builtins instead of the compiler's snapshot; keying local functions by code hash + closure cells; using the pid as per-process token",
-    'C16': "reload not clearing _cooked; shared search_path list; reload only if mtime greater; registry key losing format; content type kept from the previous version; template's own directory not moved to the front of the search path; mtime recorded after compile; Macros memoising wrappers; auto_reload not reaching the load: loader; default extension decided by splitext; weak-value registry; cook() skipping recompilation when the digest is unchanged (memo recorded before the compile succeeded); a per-instance reload lock with the mtime comparison outside it; sweeping stale macro entry points only when _cooked is set; an lru_cache around the search-path existence test; include() skipping cook_check once compiled; computing the template's own directory from the raw constructor argument; losing the package_name reset in the search-path walk",
+    'C04': "a lambda skipping scope push; omit-tag guard evaluated twice with default; switch/case body ordering; dict item-before-attribute fast path; hoisting literal displays to statics; type prefix on later pipe alternatives; narrowing LookupError to KeyError/IndexError; skipping attribute->item rewrite for call targets; memoising interpolation values by expression text; expression-cache dict rebinding after macros; comprehension loop variables made local including the outermost iterable; pipe splitter taught to skip quoted strings; lookup_attr item fallback wrapped in a broad except; digest() mutating the compiler's class-level set of builtin names in place; a fast path for exists: over a bare identifier; exists: using the pipe's exception tuple; naming cached-guard variables after expression text; a per-(class,name) memo of item-vs-attribute in lookup_attr; type-level lookup of __getitem__ in lookup_attr",
+    'C12': "missing __token reset before in-place macro call; args lost for OSError/MemoryError; column = absolute offset; stale handled-error records; removed token for use-macro expression; expression compilers cached by text; compiler class state shared across concurrent compilations; derived exception class cached per class with __str__ reassigned; tal:repeat not copying sized containers; except-OSError-as clobbering a variable in the formatter; line table built with str.splitlines; an 'already formatted' marker attribute that lands on the original exception through the shared instance dictionary; the formatter caching its text; de-duplicating recorded sites of a nested render per record; filling the offset->(line, column) table with one forward scan; keying cached modules by the file's base name; tokenizer dropping a leading BOM; bounding the list of recorded error sites; rewriting split_parts with a placeholder for ;;",
+    'C13': "handler called after the fallback; del __stream not redirected in translation blocks; switch/case cancel ordering; fallback tags with omit-tag expression; except RecursionError: raise; saved lengths on a per-function stack; fallback guarded by truthiness of saved length; shared len(__stream) AST node; fallback start tag with raw ${} attributes; dropping try for bodies without token references; error-variable backup taken inside the handler; try/finally restoration of repeat variables opened before the loop variable is bound; binding error / calling the handler only when the fallback mentions 'error'; reporting to on_error_handler only the first failure of an element per render; taking error's position from the first recorded site without matching the exception; saving the stream length through an alias bound at function entry; dropping the token reset before a filled slot is called; dropping the on-error wrap of fill-slot content; restoring i18n settings only when the guarded element declares one",
+    'C14': "re-cook deleting all _render* first; search_path list shared and mutated; unlocked fast path in ModuleLoader._load; RepeatDict mutable default; code generator class state at module level; xmlns declarations written to the process-wide default namespace map; reload decision kept in a local; read() resetting content_type before I/O; mtime recorded after read+compile; frozenset ordering of i18n:attributes; Macros wrappers memoised; cook() memoising the digest it is compiling before the functions are installed; registry key dropping positional arguments; import: resolver reading sys.modules instead of __import__; a per-type cache in lookup_attr; hoisting literal displays into module-level statics; memoising render()'s encoding helpers on the instance; caching the formatted exception class per type; passing the resolved package through a loader attribute",
+    'C15': "rename before close; unset vs empty option sharing a key; single os.write with ignored short count; fixed temp name; unlocked _load fast path; sweeping *.tmp files; temp file on another file system + shutil.move; memoised option digest; line-ending normalisation in the key; digest taken before extra_builtins merged; sys.modules entry before exec_module; byte-code written in place by the loader itself instead of py_compile; a canonical form for functools.partial that sorts positional arguments; truncating the stored module's file name; hashing only the distributions whose modules are imported; hashing the live builtins instead of the compiler's snapshot; keying local functions by code hash + closure cells; using the pid as per-process token; hashing only options present in the instance dict",
+    'C16': "reload not clearing _cooked; shared search_path list; reload only if mtime greater; registry key losing format; content type kept from the previous version; template's own directory not moved to the front of the search path; mtime recorded after compile; Macros memoising wrappers; auto_reload not reaching the load: loader; default extension decided by splitext; weak-value registry; cook() skipping recompilation when the digest is unchanged (memo recorded before the compile succeeded); a per-instance reload lock with the mtime comparison outside it; sweeping stale macro entry points only when _cooked is set; an lru_cache around the search-path existence test; include() skipping cook_check once compiled; computing the template's own directory from the raw constructor argument; losing the package_name reset in the search-path walk; keeping _cooked set across a changed mtime",
 }
 
 pid, batch = sys.argv[1], sys.argv[2]
